@@ -4,6 +4,7 @@
 import UnifexModel.Driver.Entry
 import UnifexModel.Proto.Cancellable
 import UnifexModel.Proto.DetachOnCancel
+import UnifexModel.Proto.Canary
 
 namespace Unifex.Driver.Entries
 open Unifex.Proto
@@ -15,5 +16,9 @@ def cancellable : ModelEntries :=
 def detachoncancel : ModelEntries :=
   ("detachoncancel", DetachOnCancel.configs.map (fun (n, c) =>
       (n, mkEntry (DetachOnCancel.sys c) DetachOnCancel.obsOf (DetachOnCancel.final c))))
+
+def canary : ModelEntries :=
+  ("canary", Canary.configs.map (fun (n, c) =>
+      (n, mkEntry (Canary.sys c) Canary.obsOf (Canary.final c))))
 
 end Unifex.Driver.Entries
